@@ -9,6 +9,11 @@ from astropy import units as u
 from astropy.coordinates import Angle, Longitude
 from astropy.time.utils import two_sum, two_product
 
+try:
+    from astropy.utils.compat import COPY_IF_NEEDED
+except ImportError:  # older astropy, where copy=False means "only if needed"
+    COPY_IF_NEEDED = False
+
 
 __all__ = ["Phase", "FractionalPhase"]
 
@@ -248,7 +253,7 @@ class Phase(Angle):
                 phase1 = phase1.view(cls)
             return phase1.copy() if copy else phase1
 
-        phase1 = Angle(phase1, cls._unit, copy=False)
+        phase1 = Angle(phase1, cls._unit, copy=COPY_IF_NEEDED)
 
         if phase2 is not None:
             if isinstance(phase2, Phase):
@@ -257,7 +262,7 @@ class Phase(Angle):
                     phase2 = phase2.view(cls)
                 return phase2
 
-            phase2 = Angle(phase2, cls._unit, copy=False)
+            phase2 = Angle(phase2, cls._unit, copy=COPY_IF_NEEDED)
 
         return cls.from_angles(phase1, phase2)
 
@@ -734,7 +739,7 @@ class Phase(Angle):
         ) and basic_phase_out:
             try:
                 other = u.Quantity(
-                    inputs[1 - i_self], u.dimensionless_unscaled, copy=False
+                    inputs[1 - i_self], u.dimensionless_unscaled, copy=COPY_IF_NEEDED
                 ).value
                 if function is np.multiply:
                     return self.from_angles(
@@ -805,7 +810,7 @@ class Phase(Angle):
 
         elif function is np.exp and basic and self.imaginary:
             # Avoid dimensionless_angles, but still get Quantity out.
-            exponent = u.Quantity(self.frac.to_value(u.radian), copy=False)
+            exponent = u.Quantity(self.frac.to_value(u.radian), copy=COPY_IF_NEEDED)
             return function(exponent, **kwargs)
 
         # Fall-back: treat Phase as a simple Quantity.
